@@ -511,8 +511,79 @@ def probe_cfg():
     return "".join(bits), res_bit
 
 
+def send_lock_present():
+    """Read from the AST of the current source whether MessageRouter serialises `send_message` (checks + hand-over to the
+    socket-manager thread) with `stop()` (queueing close_all + marking the router inactive) by one lock.
+    True -> the model is the sub-system `ReachL` (theorems `*_locked`); False -> plain `Reach` (theorems with `lost`)."""
+    import ast
+    from harness.core import REPO
+    tree = ast.parse((REPO / "qmi/core/messaging.py").read_text())
+    cls = next((n for n in tree.body if isinstance(n, ast.ClassDef) and n.name == "MessageRouter"), None)
+    if cls is None:
+        raise RuntimeError("MessageRouter not found in qmi/core/messaging.py")
+    fns = {n.name: n for n in cls.body if isinstance(n, ast.FunctionDef)}
+    if "send_message" not in fns or "stop" not in fns:
+        raise RuntimeError("MessageRouter.send_message / stop not found")
+
+    def lock_attr(w):
+        for it in w.items:
+            e = it.context_expr
+            if isinstance(e, ast.Attribute) and isinstance(e.value, ast.Name) and e.value.id == "self":
+                return e.attr
+        return None
+
+    def locks_around(fn, pred):
+        """names of `with self.<lock>` blocks enclosing every node of fn that satisfies pred (None if no such node)"""
+        found = []
+
+        def walk(node, held):
+            if isinstance(node, ast.With):
+                la = lock_attr(node)
+                held2 = held | ({la} if la else set())
+                for b in node.body:
+                    walk(b, held2)
+                return
+            if pred(node):
+                found.append(held)
+            for c in ast.iter_child_nodes(node):
+                walk(c, held)
+        walk(fn, frozenset())
+        if not found:
+            return None
+        out = set(found[0])
+        for h in found[1:]:
+            out &= h
+        return out
+
+    def is_call(node, name):
+        return isinstance(node, ast.Call) and isinstance(node.func, ast.Attribute) and node.func.attr == name
+
+    def reads_sm(node):
+        return isinstance(node, ast.Attribute) and node.attr == "_socket_manager" and isinstance(node.ctx, ast.Load)
+
+    def clears_sm(node):
+        return (isinstance(node, ast.Assign) and any(isinstance(t, ast.Attribute) and t.attr == "_socket_manager" for t in node.targets)
+                and isinstance(node.value, ast.Constant) and node.value.value is None)
+
+    hand = locks_around(fns["send_message"], lambda n: is_call(n, "run_in_thread_arg") or is_call(n, "run_in_thread"))
+    chk = locks_around(fns["send_message"], reads_sm)
+    clr = locks_around(fns["stop"], clears_sm)
+    qca = locks_around(fns["stop"], lambda n: is_call(n, "run_in_thread") or is_call(n, "run_in_thread_arg"))
+    if hand is None or chk is None or clr is None or qca is None:
+        raise RuntimeError(f"unrecognised shape of MessageRouter.send_message/stop: hand-over={hand} check={chk} clear={clr} close_all={qca}")
+    return bool(hand & chk & clr & qca)
+
+
 def _probe_and_set():
     cfgbits, res_bit = probe_cfg()
+    try:
+        locked = send_lock_present()
+    except Exception as e:  # noqa
+        _probe_and_set.lock_error = str(e)
+        locked = False
+    else:
+        _probe_and_set.lock_error = None
+    cfgbits = cfgbits + ("1" if locked else "0")
     ACTIVE_DEFECTS.clear()
     if cfgbits[0] == "1":
         ACTIVE_DEFECTS.add("lock-handler-crash")
@@ -530,6 +601,7 @@ class C01(Prop):
     lean_modules = ["QmiModel.Props.C01"]
     driver = "drv_c01"
     modelled_not_verified = [
+        "the send/stop lock of MessageRouter (de03010) is read from the AST (with-blocks around the checks, the hand-over and the clearing of _socket_manager); that threading.Lock gives mutual exclusion is a premise",
         "the model has one object and one peer connection; calls to a second object and over a second client connection "
         "('bystanders') are checked on the real code against an independent copy of the model under the projected fault",
         "pickle: a value either serialises or raises; asyncio: call_soon_threadsafe is FIFO, callbacks queued after stop() are dropped",
@@ -603,10 +675,15 @@ class C01(Prop):
                           "(scenario, observed outcome vector); non-trivial = has a fault or a defect feature")
         cfgbits, res_bit = _probe_and_set()
         res.extra["probed_model_cfg"] = {"lockCrash": cfgbits[0], "pickleEscapes(args)": cfgbits[1],
-                                         "pickleEscapes(result)": res_bit, "oversizeReplyDropped": cfgbits[2]}
+                                         "pickleEscapes(result)": res_bit, "oversizeReplyDropped": cfgbits[2],
+                                         "sendLocked (AST of MessageRouter.send_message/stop)": cfgbits[3]}
+        if _probe_and_set.lock_error:
+            res.broken.append(Broken("translate", "C01.send_lock_present", _probe_and_set.lock_error))
         res.extra["applicable_theorems"] = (
-            "calls_complete_partial / no_loss_partial / object_survives_partial apply as stated only when all probed bits are 0; "
-            "with a bit set the corresponding pinned_*_hangs witness applies and is reported as a finding by the oracle")
+            "calls_complete_locked / no_loss_locked / nothing_lost_locked (sub-system ReachL) apply when the three loss bits are 0 "
+            "and sendLocked is 1; with sendLocked 0 the theorems with the ghost set `lost` (calls_complete, "
+            "lost_only_when_client_stopped) apply and client_stop_loses_request is a reachable loss; with a loss bit set the "
+            "corresponding pinned_*_hangs witness applies and is reported as a finding by the oracle")
         if cfgbits[1] != res_bit:
             res.broken.append(Broken("correspondence", "probe_cfg", f"pickle escape differs by direction: args={cfgbits[1]} result={res_bit}; "
                                      "the model has one bit for both"))
